@@ -140,17 +140,42 @@ impl ScriptCase {
                 "failed {} {} {}",
                 e.location().line(),
                 terr_kind(&e.kind()),
-                hx(&terr_detail(&e.kind()))
+                hx(&canon_subst_error(&terr_detail(&e.kind())))
             ),
             Err(_) => "crashed".to_string(),
         };
         let _ = catch_unwind(AssertUnwindSafe(|| runner.shutdown()));
+        // canonicalise while the runner (and its test directory) is alive
+        let _ = take_seen_dirs();
+        let canon_trace: Vec<Ev> = {
+            let g = shared.lock().unwrap_or_else(|e| e.into_inner());
+            g.trace.iter().map(canon_ev).collect()
+        };
+        let dirs = take_seen_dirs();
         drop(runner);
         set_current(None);
         for (k, _) in &self.env {
             std::env::remove_var(k);
         }
-        let g = shared.lock().unwrap_or_else(|e| e.into_inner());
+        // C13: one directory per runner, existing while alive, removed on drop
+        let mut td_problem = None;
+        if dirs.len() > 1 {
+            td_problem = Some(format!("C13|records of one runner saw different test directories: {:?}", dirs));
+        }
+        if canon_trace.iter().any(|e| match e {
+            Ev::Run(_, s) | Ev::Cmd(s) => s.contains("<TEST_DIR:gone>"),
+            _ => false,
+        }) {
+            td_problem = Some("C13|$__TEST_DIR__ does not name an existing directory while the runner is alive".into());
+        }
+        for d in &dirs {
+            if std::path::Path::new(d).exists() {
+                td_problem = Some(format!("C13|test directory {} still exists after the runner was dropped", d));
+            }
+        }
+        LAST_ORACLE.with(|o| *o.borrow_mut() = td_problem);
+        let mut g = shared.lock().unwrap_or_else(|e| e.into_inner());
+        g.trace = canon_trace;
         let mut evs: Vec<&Ev> = g.trace.iter().filter(|e| !matches!(e, Ev::Shutdown(_))).collect();
         let mut sd: Vec<&Ev> = g.trace.iter().filter(|e| matches!(e, Ev::Shutdown(_))).collect();
         sd.sort_by_key(|e| match e {
@@ -165,4 +190,100 @@ impl ScriptCase {
         }
         o
     }
+}
+
+/// `$__TEST_DIR__` / `$__NOW__` values are replaced by the placeholders the model uses, after
+/// checking their shape (a path under the temp dir ending in `.tmp` + 6 characters; a
+/// nanosecond timestamp within a day of the run)
+thread_local! {
+    /// oracle verdict of the last `ScriptCase::run` (test-directory lifetime)
+    pub static LAST_ORACLE: std::cell::RefCell<Option<String>> = const { std::cell::RefCell::new(None) };
+}
+
+thread_local! {
+    /// test directories observed in the texts canonicalised since the last `take_seen_dirs`
+    pub static SEEN_DIRS: std::cell::RefCell<Vec<String>> = const { std::cell::RefCell::new(vec![]) };
+}
+
+pub fn take_seen_dirs() -> Vec<String> {
+    SEEN_DIRS.with(|d| std::mem::take(&mut *d.borrow_mut()))
+}
+
+pub fn canon_text(s: &str) -> String {
+    let tmp = std::env::temp_dir().join(".tmp").to_string_lossy().to_string();
+    let mut out = String::new();
+    let mut rest = s;
+    while let Some(i) = rest.find(&tmp) {
+        out.push_str(&rest[..i]);
+        let after = &rest[i + tmp.len()..];
+        let suffix: String = after.chars().take(6).collect();
+        if suffix.len() == 6 && suffix.chars().all(|c| c.is_ascii_alphanumeric()) {
+            let dir = format!("{}{}", tmp, suffix);
+            if std::path::Path::new(&dir).is_dir() {
+                out.push_str("<TEST_DIR>");
+            } else {
+                out.push_str("<TEST_DIR:gone>");
+            }
+            SEEN_DIRS.with(|d| {
+                let mut d = d.borrow_mut();
+                if !d.contains(&dir) {
+                    d.push(dir.clone());
+                }
+            });
+            rest = &after[6..];
+        } else {
+            out.push_str(&tmp);
+            rest = after;
+        }
+    }
+    out.push_str(rest);
+    // timestamps: a window of 19 digits inside a digit run whose value is within a day of now
+    let now = std::time::SystemTime::now().duration_since(std::time::UNIX_EPOCH).unwrap().as_nanos();
+    let chars: Vec<char> = out.chars().collect();
+    let mut res = String::new();
+    let mut i = 0;
+    while i < chars.len() {
+        if chars[i].is_ascii_digit() && i + 19 <= chars.len() && chars[i..i + 19].iter().all(|c| c.is_ascii_digit()) {
+            let w: String = chars[i..i + 19].iter().collect();
+            let is_now = w.parse::<u128>().map(|v| v <= now && now - v < 86_400_000_000_000).unwrap_or(false);
+            if is_now {
+                res.push_str("<NOW>");
+                i += 19;
+                continue;
+            }
+        }
+        res.push(chars[i]);
+        i += 1;
+    }
+    res
+}
+
+pub fn canon_ev(e: &Ev) -> Ev {
+    match e {
+        Ev::Run(k, sql) => Ev::Run(*k, canon_text(sql)),
+        Ev::Cmd(c) => Ev::Cmd(canon_text(c)),
+        other => other.clone(),
+    }
+}
+
+/// the dependency's error wording is reduced to the kind the model names
+pub fn canon_subst_error(detail: &str) -> String {
+    if let Some(m) = detail.strip_prefix("substitution failed: ") {
+        if let Some(n) = m.strip_prefix("No such variable: $") {
+            return format!("subst:noSuchVar:{}", n);
+        }
+        if m.starts_with("Invalid escape sequence") {
+            return "subst:invalidEscape".into();
+        }
+        if m.starts_with("Missing variable name") {
+            return "subst:missingName".into();
+        }
+        if m.starts_with("Unexpected character") {
+            return "subst:unexpectedChar".into();
+        }
+        if m.starts_with("Missing closing brace") {
+            return "subst:missingBrace".into();
+        }
+    }
+    detail.to_string()
 }
